@@ -12,6 +12,8 @@ PDBM = "watchtower_plugin::dbm::DBM::"
 HOOK = "watchtower_client::on_commitment_revocation::{closure#0}"
 RUN = "watchtower_plugin::retrier::Retrier::run::{closure#0}"
 START = "watchtower_plugin::retrier::Retrier::start"
+RT = "watchtower_plugin::retrier::Retrier::"
+RM = "watchtower_plugin::retrier::RetryManager::"
 HTTP_ADD = "watchtower_plugin::net::http::add_appointment"
 RECORDERS = {WT + "add_appointment_receipt", WT + "add_pending_appointment", WT + "add_invalid_appointment", WT + "flag_misbehaving_tower"}
 
@@ -560,6 +562,66 @@ def rule_PL6(ctx, tier):
             rr.ok("send_to_retrier sends Fresh(locator)")
         else:
             rr.fail("send_to_retrier:data", "send_to_retrier sends `%s`" % og.show(d)[:80], where=s.line_of(bb))
+    # the two boolean gates of the manager loop, folded over every retrier state (status x has-pending):
+    # should_start <=> Stopped with pending work; the retain predicate keeps exactly Running, Idle and startable retriers
+    import itertools
+    from .tables import eval_fn
+
+    def state_oracle(status, pending):
+        def oracle(names, args, body, t):
+            for n in names:
+                last = n.split("::")[-1]
+                if "retrier::Retrier::" in n or "retrier::RetrierStatus::" in n:
+                    if last in ("is_stopped", "is_running", "is_idle", "is_failed"):
+                        return ("bool", status == {"is_stopped": "Stopped", "is_running": "Running", "is_idle": "Idle", "is_failed": "Failed"}[last])
+                    if last == "has_pending_appointments":
+                        return ("bool", pending)
+                    if last == "should_start":
+                        return ("bool", status == "Stopped" and pending)
+            return None
+        return oracle
+    STATES = list(itertools.product(("Stopped", "Running", "Failed", "Idle"), (False, True)))
+    ss = RT + "should_start" if (RT + "should_start") in P.bodies else None
+    if ss is None:
+        rr.anchor_missing(RT + "should_start")
+    else:
+        tab = {}
+        for st_, pe_ in STATES:
+            def orc(names, args, body, t, _o=state_oracle(st_, pe_)):
+                if any(n.endswith("::should_start") for n in names):
+                    return None
+                return _o(names, args, body, t)
+            v_ = eval_fn(ctx, ss, orc)
+            tab[(st_, pe_)] = v_[1] if v_ and v_[0] == "bool" else None
+        if any(v_ is None for v_ in tab.values()):
+            rr.fail("should_start:table-undecided", "cannot fold Retrier::should_start over the retrier states (%s)" % tab, where=P.bodies[ss].span)
+        elif all(v_ == (k_ == ("Stopped", True)) for k_, v_ in tab.items()):
+            rr.ok("should_start <=> Stopped and has pending appointments", sample={"rule": "PL6", "table": {"%s,%s" % k_: v_ for k_, v_ in tab.items()}})
+        else:
+            rr.fail("should_start:table", "Retrier::should_start is true for %s; a retrier may be (re)started only when it is Stopped and has pending appointments (a Running one would get a second loop, an empty one spins)" % sorted(k_ for k_, v_ in tab.items() if v_), where=P.bodies[ss].span)
+    keepers = []
+    for bid in P.family(RM + "manage_retry") if (RM + "manage_retry") in P.bodies else []:
+        fb_ = P.bodies[bid]
+        for bb, t in fb_.calls():
+            if (call_target(t) or "").endswith("::retain") and "HashMap" in (call_target(t) or ""):
+                a_ = arg_origin(ctx, fb_, bb, 1)
+                if isinstance(a_, tuple) and a_ and a_[0] == "closure" and a_[1] in P.bodies:
+                    keepers.append(a_[1])
+    if len(keepers) != 1:
+        rr.fail("retain:shape", "expected one `retriers.retain(..)` in manage_retry, found %d" % len(keepers))
+    else:
+        tab = {}
+        for st_, pe_ in STATES:
+            v_ = eval_fn(ctx, keepers[0], state_oracle(st_, pe_))
+            tab[(st_, pe_)] = v_[1] if v_ and v_[0] == "bool" else None
+        want_ = {k_: (k_[0] in ("Running", "Idle") or k_ == ("Stopped", True)) for k_ in tab}
+        if any(v_ is None for v_ in tab.values()):
+            rr.fail("retain:table-undecided", "cannot fold the retain predicate of manage_retry over the retrier states (%s)" % tab, where=P.bodies[keepers[0]].span)
+        elif tab == want_:
+            rr.ok("retain keeps exactly Running, Idle and startable retriers", sample={"rule": "PL6", "table": {"%s,%s" % k_: v_ for k_, v_ in tab.items()}})
+        else:
+            diff_ = sorted(k_ for k_ in tab if tab[k_] != want_[k_])
+            rr.fail("retain:table", "the retain predicate of manage_retry decides %s differently from `should_start || running || idle`: a Running/Idle retrier dropped from the registry lets a second one be created for the same tower; a Failed or finished one kept is never cleaned up" % diff_, where=P.bodies[keepers[0]].span)
     r = P.require("watchtower_client::retry_tower::{closure#0}")
     sends = sites_containing(r, "UnboundedSender", "::send")
     kinds = {}
